@@ -77,10 +77,15 @@ pub fn run(out: &mut Out) {
             true,
         );
         // absolute operators = fractional with translations scaled by the cell edges
-        let cell = UnitCell::new(4.0, 8.0, 16.0, 90.0, 90.0, 90.0);
-        let abs_ok = sym.transformations().iter().zip(sym.transformations_absolute(&cell).iter()).all(|(f, a)| {
-            let (fm, am) = (f.matrix(), a.matrix());
-            (0..3).all(|r| (0..3).all(|c| fm[r][c] == am[r][c]) && am[r][3] == fm[r][3] * [4.0, 8.0, 16.0][r])
+        // in cells of every shape (the statement speaks of the edges only, whatever the angles)
+        let abs_ok = [(90.0, 90.0, 90.0), (90.0, 100.0, 90.0), (90.0, 90.0, 120.0), (70.0, 80.0, 110.0)].iter().all(|(al, be, ga)| {
+            let cell = UnitCell::new(4.0, 8.0, 16.0, *al, *be, *ga);
+            let abs = sym.transformations_absolute(&cell);
+            abs.len() == sym.transformations().len()
+                && sym.transformations().iter().zip(abs.iter()).all(|(f, a)| {
+                    let (fm, am) = (f.matrix(), a.matrix());
+                    (0..3).all(|r| (0..3).all(|c| fm[r][c] == am[r][c]) && am[r][3] == fm[r][3] * [4.0, 8.0, 16.0][r])
+                })
         });
         out.case("C17", call("absolute", vec![z(i as i128)]), b(abs_ok), "prop:absolute-scaled", true);
         // every spelling of both symbols finds the group again
